@@ -45,6 +45,9 @@ def walk(n):
 
 class FUniq(CExec):
     family = "F-UNIQ"
+    ASSUMES = [
+        "F-UNIQ: in[0..n) is ascending (established by the radix / quick sort: bounded, multiunion_rt) and out == in or the two "
+        "ranges are disjoint; memcpy is the exact copy"]
     precise_mem_havoc = True
 
     @classmethod
